@@ -3072,8 +3072,20 @@ impl Translator {
                     self.collect_captures_expr(&arg.val, captures, mono);
                 }
             }
-            ExprKind::AnonymousFunction(..)
-            | ExprKind::MemberAccessLeadingDot(..)
+            ExprKind::AnonymousFunction(args, _, body) => {
+                // whatever a nested lambda captures must be available in the enclosing function,
+                // either as one of its own variables or as one of its own captures
+                let func_ty = self.statics.solution_of_node(expr.node()).unwrap();
+                let overload_ty = if !func_ty.is_overloaded() {
+                    None
+                } else {
+                    Some(func_ty.subst(mono))
+                };
+                let (_, nested_captures, _) =
+                    self.calculate_args_captures_locals(&overload_ty, args, body, mono);
+                captures.extend(nested_captures);
+            }
+            ExprKind::MemberAccessLeadingDot(..)
             | ExprKind::Nil
             | ExprKind::Int(..)
             | ExprKind::Float(..)
